@@ -300,9 +300,18 @@ pub fn factory_for(backend: Backend, hub: &Hub, chub: &Option<CHub>) -> Fac {
     }
 }
 
-fn exec_on<T: LabelType>(built: &Built<T>, case: &StaticCase, record: bool) -> ExecOut {
+#[derive(Clone, Copy, Debug, Default)]
+pub struct ExecOpts {
+    pub record: bool,
+    pub call_budget: Option<u64>,
+}
+
+fn exec_on<T: LabelType>(built: &Built<T>, case: &StaticCase, opts: ExecOpts) -> ExecOut {
     let (hub, chub) = make_hubs(case.oracle, case.backend, &case.fault);
-    hub.borrow_mut().record = record;
+    hub.borrow_mut().record = opts.record;
+    if let Some(b) = opts.call_budget {
+        hub.borrow_mut().call_budget = b;
+    }
     let before = snapshot(&built.af);
     let af = &built.af;
     let mut se = None;
@@ -385,10 +394,10 @@ fn exec_on<T: LabelType>(built: &Built<T>, case: &StaticCase, record: bool) -> E
     }
 }
 
-pub fn exec_static(case: &StaticCase, record: bool) -> ExecOut {
+pub fn exec_static(case: &StaticCase, opts: ExecOpts) -> ExecOut {
     match case.fw.route {
-        Route::ApiUsize | Route::IccmaText => exec_on(&build_usize(&case.fw), case, record),
-        Route::ApiString | Route::ApxText => exec_on(&build_string(&case.fw), case, record),
+        Route::ApiUsize | Route::IccmaText => exec_on(&build_usize(&case.fw), case, opts),
+        Route::ApiString | Route::ApxText => exec_on(&build_string(&case.fw), case, opts),
     }
 }
 
